@@ -1295,10 +1295,62 @@ def end_point_float_stage(chk):
                           {'kind': 'impl', 'stage': 'end-point-float', 'path': fam, 'domain': list(sp), 'x': repr(x), 'der': der, 'float': fv, 'exact': qstr(ev)})
     return len(meta), worst
 
+def basis_object_stage(chk):
+    """BSplines.__getitem__: basis[i] is the spline with the unit coefficient vector e_i.  Objects handed out earlier
+    must stay what they were: all basis functions of a space are requested first and evaluated afterwards (value and
+    derivative, scalar and array entry points) and compared bitwise with the kernel run directly on e_i."""
+    import numpy as np
+    from pygyro.splines.splines import make_knots, BSplines
+    rnu, rcu = real_modules()
+    rng = random.Random(chk.seed + 99)
+    quick = chk.tier == 'quick'
+    n = 0
+    for periodic in (False, True):
+        for p in (1, 2, 3, 4, 5):
+            for uniform in (True, False):
+                for rep in range(1 if quick else 3):
+                    nc = rng.randint(max(p + 1, 3), 9)
+                    lo = rng.choice([0.0, -1.25, 0.1])
+                    if uniform:
+                        br = np.linspace(lo, lo + rng.choice([1.0, 2 * math.pi, 14.4]), nc + 1)
+                    else:
+                        br = lo + np.concatenate([[0.0], np.cumsum([rng.choice([0.5, 1.0, 1.5]) for _ in range(nc)])])
+                    bs = BSplines(make_knots(br, p, periodic), p, periodic, uniform)
+                    cu = bool(bs.cubic_uniform)
+                    kn = np.asarray(bs.knots, dtype=float)
+                    ncoef = bs.ncells + p
+                    held = [bs[i] for i in range(bs.nbasis)]                  # all requested before any is used
+                    xs = np.array(sorted([float(br[0]), float(br[-1])] + [rng.uniform(float(br[0]), float(br[-1])) for _ in range(5)]))
+                    tag = '%s:%s:p%d' % ('periodic' if periodic else 'clamped', 'cubic' if cu else 'uniform' if uniform else 'nonuniform', p)
+                    for i, B in enumerate(held):
+                        e = np.zeros(ncoef)
+                        e[i] = 1.0
+                        if periodic and i < p:
+                            e[bs.nbasis + i] = 1.0
+                        for der in (0, 1):
+                            ref = np.empty(len(xs))
+                            (rcu['cu_eval_spline_1d_vector'] if cu else rnu['nu_eval_spline_1d_vector'])(xs, kn, p, e, ref, der)
+                            got_v = np.asarray(B.eval(xs, der), dtype=float)
+                            got_s = np.array([float(B.eval(float(x), der)) for x in xs])
+                            chk.count(('basis-object', tag, nc, i, der), stratum='basis-object:%s:der%d' % (tag, der),
+                                      sample={'space': tag, 'ncells': nc, 'i': i, 'der': der})
+                            n += 1
+                            if not (np.array_equal(got_v, ref) and np.allclose(got_s, ref, rtol=1e-13, atol=1e-13)):
+                                chk.violation('splines.BSplines.__getitem__:held-basis-function',
+                                              'space %s with %d cells: basis[%d] requested together with the other basis functions and evaluated '
+                                              'afterwards (der=%d) gives %r, the kernel on the unit vector e_%d gives %r'
+                                              % (tag, nc, i, der, got_v.tolist()[:4], i, ref.tolist()[:4]),
+                                              {'kind': 'impl', 'stage': 'basis-object', 'space': tag, 'breaks': [float(b) for b in br], 'degree': p,
+                                               'periodic': periodic, 'uniform': uniform, 'i': i, 'der': der})
+                                break
+    return n
+
+
 def run():
     chk = core.Check('C07', 'proof')
     proof = core.proof_stage('C07')
     n_endf, endf_worst = end_point_float_stage(chk)
+    n_basis_objects = basis_object_stage(chk)
     cases, spaces = gen_exact_cases(chk)
     n_knots_validated = validate_make_knots(chk, spaces)
 
